@@ -81,7 +81,9 @@ class C16(Check):
             "function signed_by: [n] -> [n] + {root, dangling name, non-string} with genuine signatures "
             "by the designated parent, for version 1 (names of the four kinds, duplicates for n = 5) "
             "and version 2 (all certificates / certificates + attestation key + quote), every non-empty "
-            "target subset (n = 5: singletons and all); (c) every field of every element kind absent / "
+            "target subset (quick n = 4: no triples; n = 5: singletons and all), and the same with one element named like the root "
+            "sentinel of the version ('root' / 'sgx_root') or with the empty name (version 2: n <= 3, "
+            "thorough 4 with singleton and full target lists; version 1: n <= 2); (c) every field of every element kind absent / "
             "null / number / list / object / boolean / empty / non-hex / odd hex / spaced hex / short / "
             "long; every sequence of 1..3 element kinds (P-256 / P-384 / secp256k1 certificate, attestation "
             "key, quote) chained below a valid certificate, each really signed by its parent; unknown and "
@@ -131,6 +133,12 @@ class C16(Check):
                 plen = max(0, n - 1) if n >= 3 else 0
                 for first in itertools.product(range(n + 3), repeat=plen):
                     cs.append({"kind": "graph", "ver": ver, "pat": pat, "n": n, "first": list(first)})
+                    # one element NAMED like the root sentinel of the version / with the empty name
+                    if n <= (self.nmax - 1 if ver == 2 else 2):
+                        for i in range(n):
+                            for nm in (ROOTS[ver], ""):
+                                cs.append({"kind": "graph", "ver": ver, "pat": pat, "n": n,
+                                           "first": list(first), "rename": [i, nm]})
         for ver in (1, 2):
             for idx in range(4):
                 cs.append({"kind": "fields", "ver": ver, "idx": idx})
@@ -249,23 +257,18 @@ class C16(Check):
             self._c[k] = e
         return dict(e)
 
-    def v2_el(self, i, kind, sb, parent_kind):
-        k = ("v2", i, kind, repr(sb), parent_kind)
+    def v2_el(self, i, name, kind, sb, signer):
+        """Element number i (its own key is 'e<i>') shown under `name`, really signed by key `signer`."""
+        k = ("v2", i, name, kind, repr(sb), signer)
         e = self._c.get(k)
         if e is not None:
             return dict(e)
         w = self.w2
-        name = "e%d" % i
-        if sb == "sgx_root":
-            signer = "root"
-        elif isinstance(sb, str) and sb.startswith("e") and parent_kind in ("x509_pem", "sgx_attestation_key"):
-            signer = sb
-        else:
-            signer = "stranger"
+        own = "e%d" % i
         if kind == "x509_pem":
-            e = w.x509_element(name, sb, w.cert(name, signer, G.T0 - 100 * DAY, G.T0 + 100 * DAY))
+            e = w.x509_element(name, sb, w.cert(own, signer, G.T0 - 100 * DAY, G.T0 + 100 * DAY))
         elif kind == "sgx_attestation_key":
-            e = w.att_element(name, sb, signer, key_name=name)
+            e = w.att_element(name, sb, signer, key_name=own)
         else:
             e = w.quote_element(name, sb, signer)
         self._c[k] = e
@@ -286,20 +289,41 @@ class C16(Check):
                 kinds[-1] = "sgx_quote"
                 if n >= 2:
                     kinds[-2] = "sgx_attestation_key"
+        own_names = list(names)
+        rename = case.get("rename")
+        if rename:
+            names[rename[0]] = rename[1]
         opts = names + [ROOTS[ver], "nobody", 7]
-        if n <= 4:
+        if n == 4 and case.get("rename"):
+            tsets = [(i,) for i in range(n)] + [tuple(range(n))]
+        elif n <= 3 or (n == 4 and self.thorough):
             tsets = [c for r in range(1, n + 1) for c in itertools.combinations(range(n), r)]
+        elif n == 4:
+            tsets = [c for r in (1, 2, 4) for c in itertools.combinations(range(n), r)]
         else:
             tsets = [(i,) for i in range(n)] + [tuple(range(n))]
         label = "graph:v%d:%s:n%d" % (ver, pat, n)
+        if rename:
+            label += ":named-like-root" if rename[1] else ":empty-name"
         for rest in itertools.product(range(n + 3), repeat=n - len(first)):
             f = list(first) + list(rest)
             sbs = [opts[j] for j in f]
             if ver == 1:
                 parents = {s for s in sbs if isinstance(s, str)}
-                els = [self.v1_el(i, n, sbs[i], names, names[i] in parents) for i in range(n)]
+                els = [self.v1_el(i, n, sbs[i], own_names, names[i] in parents) for i in range(n)]
+                if rename:
+                    els[rename[0]]["name"] = rename[1]
             else:
-                els = [self.v2_el(i, kinds[i], sbs[i], kinds[f[i]] if f[i] < n else None) for i in range(n)]
+                els = []
+                for i in range(n):
+                    # the sentinel wins over an element of the same name (that is what loading does)
+                    if sbs[i] == ROOTS[ver]:
+                        signer = "root"
+                    elif f[i] < n and kinds[f[i]] in ("x509_pem", "sgx_attestation_key"):
+                        signer = "e%d" % f[i]
+                    else:
+                        signer = "stranger"
+                    els.append(self.v2_el(i, names[i], kinds[i], sbs[i], signer))
             for ts in tsets:
                 d = {"version": ver, "targets": [names[i] for i in ts], "elements": els}
                 self.evaluate(json.dumps(d), label, stats, vs)
